@@ -292,6 +292,11 @@ fn add_stats(rep: &mut Report, s: &Stats) {
     rep.add("lsm.trivial-moves", s.trivial_moves);
     rep.add("lsm.file-deletions", s.deletes_of_files);
     rep.add("lsm.deletion-passes-compared-with-the-model", s.obsolete_passes);
+    rep.add("lsm.make-room-iterations-compared-with-the-model", s.room_iterations);
+    rep.add("lsm.make-room-waits", s.room_waits);
+    rep.add("lsm.make-room-rotations", s.room_rotations);
+    rep.add("lsm.make-room-delays", s.room_delays);
+    rep.add("lsm.make-room-forced-iterations", s.room_forced);
     rep.add("lsm.deletion-pass-names-decided", s.obsolete_names);
     rep.add("lsm.deletion-pass-names-marked", s.obsolete_deleted);
     rep.add("lsm.deletion-pass-foreign-names", s.obsolete_foreign_names);
